@@ -415,6 +415,206 @@ func runC11(c *Ctx) {
 		}
 	}
 
+	// ---------------------------------------------------------------- C11.7
+	c.Rule("C11.7", "a message treated as 'empty' on an error edge has a buffer", 2)
+	msgPT := types.NewPointer(p.MustNamed("message"))
+	markReady := p.MethodOf(msgPT, "markReady")
+	msgReset := p.MethodOf(msgPT, "reset")
+	rrm := p.MustFunc("(*operation).readRequestMessage")
+	if markReady == nil || msgReset == nil {
+		fatalf("anchor=message.markReady/reset not found")
+	}
+	// lemma A: no client protocol both prepares bodies and is enveloped
+	cbp, ephI := p.Iface("clientBodyPreparer"), p.Iface("envelopedProtocolHandler")
+	lemmaA := cbp != nil && ephI != nil
+	if lemmaA {
+		for _, t := range p.Implementers(cbp) {
+			if types.Implements(t, ephI) || types.Implements(types.NewPointer(t), ephI) {
+				lemmaA = false
+			}
+		}
+	}
+	// lemma B: in the message reader every return on the 'client has no envelopes' side is preceded by reset
+	lemmaB := false
+	{
+		clientEnvFld := p.MustField("operation", "clientEnveloper")
+		paths, ok := EnumPaths(rrm.Blocks[0], nil, IsReturn, 0)
+		lemmaB = ok
+		for _, cp := range paths {
+			unenv := false
+			for cond, truth := range cp.Truth {
+				if b, isB := cond.(*ssa.BinOp); isB && LoadedField(b.X) == clientEnvFld && IsNilConst(b.Y) {
+					if b.Op == token.NEQ && !truth || b.Op == token.EQL && truth {
+						unenv = true
+					}
+				}
+			}
+			if !unenv {
+				continue
+			}
+			hasReset := false
+			for _, b := range cp.Blocks {
+				for _, in := range b.Instrs {
+					if ci, isC := in.(ssa.CallInstruction); isC {
+						for _, cal := range p.CalleesAt(ci) {
+							if cal == msgReset {
+								hasReset = true
+							}
+						}
+					}
+				}
+			}
+			if !hasReset {
+				lemmaB = false
+			}
+		}
+	}
+	prepFlag := p.MustField("operation", "clientReqNeedsPrep")
+	var clientPrepCell nilCell
+	for _, cl := range cells {
+		if cl.name == "clientPreparer" {
+			clientPrepCell = cl
+		}
+	}
+	for _, fn := range p.Funcs {
+		if !p.inScope(fn) {
+			continue
+		}
+		for _, call := range Calls(fn) {
+			isMR := false
+			for _, cal := range p.CalleesAt(call) {
+				if cal == markReady {
+					isMR = true
+				}
+			}
+			if !isMR {
+				continue
+			}
+			// only the 'tolerated error' idiom: the call is dominated by a fact about an error value being non-nil / being io.EOF
+			onErrEdge := false
+			for _, f := range FactsAt(call.Block()) {
+				if ic, ok := f.Cond.(*ssa.Call); ok && f.Truth && IsCallTo(ic, "errors.Is") {
+					onErrEdge = true
+				}
+				if cmp, ok := f.AsCmp(); ok && cmp.Op == token.NEQ && IsNilConst(cmp.Y) && types.Identical(cmp.X.Type(), types.Universe.Lookup("error").Type()) {
+					onErrEdge = true
+				}
+			}
+			if !onErrEdge {
+				continue
+			}
+			c.CountSite()
+			// (i) a reset of the message dominates the call in this function
+			domReset := false
+			ForEachInstr(fn, func(in ssa.Instruction) {
+				if ci, ok := in.(ssa.CallInstruction); ok && instrBefore(in, call) {
+					for _, cal := range p.CalleesAt(ci) {
+						if cal == msgReset && in.Block() == call.Block() {
+							domReset = true
+						}
+					}
+				}
+			})
+			how := "the message is reset (given a buffer) right before it is marked ready"
+			ok := domReset
+			if !ok {
+				// (ii) the tolerated error can only come from the un-enveloped side of the reader
+				flagTrue := false
+				for _, f := range FactsAt(call.Block()) {
+					if f.Truth && LoadedField(f.Cond) == prepFlag {
+						flagTrue = true
+					}
+				}
+				if flagTrue && lemmaA && lemmaB && clientPrepCell.fld != nil && a.flagCorrelated(prepFlag, clientPrepCell, 0) {
+					ok = true
+					how = "dominated by clientReqNeedsPrep: only set for body-preparing client protocols, none of which is enveloped (type-level), and the un-enveloped side of the message reader always resets the message before returning"
+				}
+			}
+			c.Check(ok, "C11.7", FuncName(fn), "markReady-on-error-edge", call.Pos(), how,
+				"a message is marked ready on an error edge (error tolerated as 'empty message') although the callee may have returned before giving the message a buffer: nil dereference for an empty body from an enveloped client")
+		}
+	}
+
+	// ---------------------------------------------------------------- C11.8
+	c.Rule("C11.8", "the re-framing writer's current sink is never left nil in a state in which Write dereferences it", 3)
+	ewN := p.MustNamed("envelopingWriter")
+	ewPT := types.NewPointer(ewN)
+	curF2 := p.MustField("envelopingWriter", "current")
+	weF := p.MustField("envelopingWriter", "writingEnvelope")
+	ewErrF := p.MustField("envelopingWriter", "err")
+	recovers := func(in ssa.Instruction) bool {
+		st, ok := in.(*ssa.Store)
+		if !ok {
+			return false
+		}
+		fa, ok := st.Addr.(*ssa.FieldAddr)
+		if !ok {
+			return false
+		}
+		switch FieldOfAddr(fa) {
+		case curF2, ewErrF:
+			return !IsNilConst(st.Val)
+		case weF:
+			b, isC := ConstBool(st.Val)
+			return isC && b
+		}
+		return false
+	}
+	ems := p.SSA.MethodSets.MethodSet(ewPT)
+	for i := 0; i < ems.Len(); i++ {
+		m := p.MethodOf(ewPT, ems.At(i).Obj().Name())
+		if m == nil || m.Blocks == nil || m.Name() == "Close" {
+			continue
+		}
+		ForEachInstr(m, func(in ssa.Instruction) {
+			st, ok := in.(*ssa.Store)
+			if !ok {
+				return
+			}
+			fa, ok := st.Addr.(*ssa.FieldAddr)
+			if !ok {
+				return
+			}
+			f := FieldOfAddr(fa)
+			danger := ""
+			if f == weF {
+				if b, isC := ConstBool(st.Val); isC && !b {
+					danger = "leaves envelope mode (payload bytes will go to the current sink)"
+				}
+			}
+			if f == curF2 && IsNilConst(st.Val) {
+				danger = "clears the current sink"
+			}
+			if danger == "" {
+				return
+			}
+			c.CountSite()
+			okRec, path := MustPassToExit(m, st, recovers, IsReturn, nil)
+			c.Check(okRec, "C11.8", FuncName(m), "sink-restored-or-closed:"+f.Name(), st.Pos(),
+				"after this store every path to the exit installs a sink, returns to envelope mode, or sets the error cell (so Write refuses further data)",
+				"the writer "+danger+" and a path returns without installing a sink or closing the writer ("+witnessString(p, path)+"): the finalising Write(nil) of responseWriter.close dereferences a nil sink")
+		})
+	}
+	if mi := p.MethodOf(ewPT, "maybeInit"); mi != nil {
+		initF := p.MustField("envelopingWriter", "initialized")
+		var initSt ssa.Instruction
+		ForEachInstr(mi, func(in ssa.Instruction) {
+			if st, ok := in.(*ssa.Store); ok {
+				if fa, ok := st.Addr.(*ssa.FieldAddr); ok && FieldOfAddr(fa) == initF {
+					initSt = in
+				}
+			}
+		})
+		if initSt == nil {
+			c.Bad("C11.8", FuncName(mi), "initialiser", mi.Pos(), "initialiser does not mark itself done: shape changed")
+		} else {
+			okI, path := MustPassToExit(mi, initSt, recovers, IsReturn, nil)
+			c.Check(okI, "C11.8", FuncName(mi), "initialiser-establishes-sink", initSt.Pos(),
+				"every path of the initialiser ends in envelope mode, with a sink installed, or with the error cell set",
+				"a path of the initialiser leaves the writer outside envelope mode without a sink and without an error: "+witnessString(p, path))
+		}
+	}
+
 	// ---------------------------------------------------------------- C11.3
 	c.Rule("C11.3", "no explicit crash constructs at request time; recursion only where listed", 3)
 	nPanic, nAssert, nGo := 0, 0, 0
